@@ -63,7 +63,13 @@ func RunLine(line string) string {
 	if !ok {
 		return "bad-op"
 	}
-	return Guard(5*time.Second, func() string { return op(f[1:]) })
+	// many goroutines x many rounds (and 10x slower under the race detector): a deadline that is
+	// only there to catch a real hang
+	timeout := 10 * time.Second
+	if f[0] == "conc" {
+		timeout = 300 * time.Second
+	}
+	return Guard(timeout, func() string { return op(f[1:]) })
 }
 
 func ErrClass(err error) string {
